@@ -17,7 +17,7 @@ import (
 func init() { register("C18", "exploration", runC18) }
 
 func runC18(c *ev.Ctx) {
-	c.Rule = "(A) peer leecher: a real BasePeerLeecher (ticker 1-3 ms, parallelism 1..5) against a scripted peer: the harness delivers at most the requested number of chunks (unique ids), marks delivered chunks processed in random order, flips Suspend on/off, in every third run floods up to twice 2*parallelism+1..3 unrequested chunks while nothing is processed, sleeps 0-3 ms between steps and finally reports Done. Oracle over the callback stream (schedule independent): every RequestChunks(n) is preceded, since the previous request, by a Suspend() answer of false and the most recent answer is false; " +
+	c.Rule = "(A) peer leecher: a real BasePeerLeecher (ticker 1-3 ms, parallelism 1..5) against a scripted peer: the harness delivers at most the requested number of chunks (unique ids), marks delivered chunks processed in random order, flips Suspend on/off, in every third run floods up to twice 2*parallelism+1..3 unrequested chunks while nothing is processed, sleeps 0-3 ms between steps and finally reports Done; every sixth run starts on a download that is already done (no request at all may go out). Oracle over the callback stream (schedule independent): every RequestChunks(n) is preceded, since the previous request, by a Suspend() answer of false and the most recent answer is false; " +
 		"sum of requested chunks <= (#chunks for which IsProcessed answered true) + parallelism at every request; no request after Done() answered true and the loop exits (watchdog 100x the tick, canary-guarded); with capacity available and no suspension the window is refilled (bounded progress, canary-guarded). " +
 		"(B) base leecher: callbacks implemented over the exported Peers registry; StartSession prefers a peer that is being unregistered right now; three goroutines own disjoint peer names and register / unregister them while the ticker (1 ms) and ShouldTerminateSession flips drive sessions; then Terminate. Oracle: StartSession only when no session is running; after UnregisterPeer(p) returned no session with p is running and none starts until p is registered again; no session starts after Terminate returned. " +
 		"non-trivial = distinct peer-leecher runs with a suspension while capacity was available and >= 3 refills, and distinct base-leecher runs in which a peer was unregistered while it had the running session"
@@ -120,6 +120,23 @@ func c18Peer(c *ev.Ctx, r *rand.Rand, caseN int) (string, map[string]interface{}
 			return done
 		},
 	})
+	if caseN%6 == 5 {
+		// the download is already done when the session starts: not a single request may go out, and the loop ends
+		mu.Lock()
+		done = true
+		mu.Unlock()
+		l.Start()
+		time.Sleep(30 * tick)
+		mu.Lock()
+		n := requested
+		mu.Unlock()
+		l.Stop()
+		if n > 0 {
+			return "request-after-done", map[string]interface{}{"case": caseN, "parallelism": par, "why": fmt.Sprintf("%d chunks requested although the download was done before the session started", n), "events": events}
+		}
+		c.Count("sessions_started_on_a_finished_download", 1)
+		return "", nil
+	}
 	l.Start()
 	delivered := 0
 	var unprocessed []int
